@@ -19,6 +19,7 @@ import (
 
 	"storj.io/drpc"
 	"storj.io/drpc/drpcmanager"
+	"storj.io/drpc/drpcmetadata"
 	"storj.io/drpc/drpcstream"
 	"storj.io/drpc/drpcwire"
 
@@ -706,6 +707,82 @@ func finishRaceQueued(id string, soft bool, where string, serverEnds string, idl
 	return res
 }
 
+// cancelAfterMeta: the RPC carries metadata and its context is cancelled while its goroutine sits
+// between the metadata write and the invoke write (so the peer sees metadata and, in soft mode, a
+// cancel, but never the invoke). The call must return, and the connection must afterwards be closed or
+// carry the next RPC.
+func cancelAfterMeta(id string, soft, unary bool) runner.Result {
+	mopts := drpcmanager.Options{SoftCancel: soft}
+	handler := rig.HandlerFunc(func(stream drpc.Stream, rpc string) error {
+		var m []byte
+		if err := stream.MsgRecv(&m, payload.Enc{}); err != nil {
+			return nil
+		}
+		out := payload.Make(9, 1, 0, 0, 5)
+		return stream.MsgSend(&out, payload.Enc{})
+	})
+	rg := rig.New(rig.Config{Net: simnet.Opts{Cap: -1}, Client: mopts, Server: mopts}, handler)
+	defer rg.Teardown()
+	point := "conn.newstream.afterMeta"
+	if unary {
+		point = "conn.invoke.afterMeta"
+	}
+	park := rg.Dir.ParkAt(point, rg.Pair.A, 1)
+	ctx, cancel := context.WithCancel(drpcmetadata.Add(context.Background(), "k", "v"))
+	defer cancel()
+	op := rig.Go("rpc", func() (interface{}, error) {
+		in := payload.Make(1, 0, 0, 0, 10)
+		if unary {
+			var out []byte
+			return nil, rg.Conn.Invoke(ctx, "/meta", payload.Enc{}, &in, &out)
+		}
+		st, err := rg.Conn.NewStream(ctx, "/meta", payload.Enc{})
+		if err != nil {
+			return nil, err
+		}
+		defer st.Close()
+		if err := st.MsgSend(&in, payload.Enc{}); err != nil {
+			return nil, err
+		}
+		var out []byte
+		return nil, st.MsgRecv(&out, payload.Enc{})
+	})
+	stq, _ := census.QuiesceOr(park.Reached(), rig.Watchdog)
+	desc := fmt.Sprintf("cancel-after-metadata soft=%v unary=%v: context cancelled between the metadata write and the invoke write", soft, unary)
+	if stq != "ready" {
+		park.Release()
+		return runner.Inconcl(id, desc+": the point was not reached")
+	}
+	cancel()
+	census.Quiesce(rig.Watchdog)
+	park.Release()
+	_, snap := census.Quiesce(rig.Watchdog)
+	key := fmt.Sprintf("cancel:after-metadata soft=%v unary=%v", soft, unary)
+	if !op.Returned() {
+		return runner.Violation(id, key+" call-still-blocked", desc+"\n"+census.Dump(census.InDRPC(snap)))
+	}
+	if op.Err == nil {
+		return runner.Violation(id, key+" call-succeeded", desc+"\nthe cancelled call returned nil")
+	}
+	if !rig.IsClosed(rg.Conn.Closed()) {
+		in := payload.Make(2, 0, 0, 0, 5)
+		var out []byte
+		probe := rig.Go("probe", func() (interface{}, error) {
+			return nil, rg.Conn.Invoke(context.Background(), "/probe", payload.Enc{}, &in, &out)
+		})
+		if !probe.Wait() {
+			_, snap = census.Quiesce(rig.Watchdog)
+			return runner.Violation(id, key+" later-call-blocks", desc+"\nafter the cancel the connection is neither closed nor usable: a probe RPC blocks\n"+census.Dump(census.InDRPC(snap)))
+		}
+		if probe.Err != nil && !rig.IsClosed(rg.Conn.Closed()) {
+			return runner.Violation(id, key+" later-call-fails", desc+"\nafter the cancel the connection is not closed but a probe RPC failed: "+rig.ErrStr(probe.Err))
+		}
+	}
+	res := runner.Hold(id, desc, true)
+	res.Events = 2
+	return res
+}
+
 // midMessage: the context is cancelled while a middle frame of a message that spans several frames
 // is inside the transport, and that write then completes successfully (its bytes were out already).
 // The send was blocked in the transport when the cancel happened: default mode promises the
@@ -897,6 +974,15 @@ func gen(tier string, seed uint64) []runner.Scenario {
 	}
 	r := &payload.SplitMix{S: payload.Hash(seed, 0xC04)}
 	var out []runner.Scenario
+	for _, soft := range []bool{false, true} {
+		for _, unary := range []bool{false, true} {
+			for rep := 0; rep < 2; rep++ {
+				soft, unary := soft, unary
+				id := fmt.Sprintf("cancel-after-metadata/soft=%v/unary=%v/%d", soft, unary, rep)
+				out = append(out, runner.Scenario{ID: id, Run: func() runner.Result { return cancelAfterMeta(id, soft, unary) }})
+			}
+		}
+	}
 	// client side only: on the server side the handler's context is cancelled by the disconnect itself,
 	// so a write that fails because the peer is gone precedes the cancellation and may report the transport's error
 	for _, side := range []string{"client"} {
